@@ -16,12 +16,13 @@ ASSUMPTIONS = ['tokens are ASCII strings without the separator (they come from s
 
 FIXED = {'DPI': 0, 'MPI': 0, 'GIT': 0, 'SUB': 2, 'USB': 2, 'NSC': 2, 'GUI': 2, 'NTC': 2, 'NUS': 4, 'NNS': 4, 'NNT': 4,
          'NUA': 6, 'GIS': 6, 'NUM': 6, 'GSC': 8, 'MDA': 10, 'MDC': 12, 'MSA': 26}
-MARKERS = ['S', 'I', 'M', 'P', 'B', 'D', 'X', '', 's', 'SS', '#', '$']
-BAD_INT = ['x', '', '1.0', '1e3', '0x10', '--1', '1-', '1 2', '_1', '1_', '1__0', 'None', '#', '$', '+', '-', 'I']
+MARKERS = ['S', 'I', 'M', 'P', 'B', 'D', 'X', '', 's', 'SS', '#', '$', '{', '}', '{0}', '{x}', '{}', '%s']
+BAD_INT = ['x', '', '1.0', '1e3', '0x10', '--1', '1-', '1 2', '_1', '1_', '1__0', 'None', '#', '$', '+', '-', 'I',
+           '{', '}', '{0}', '{x}', '{}', '%s', '%(a)s', '{0.__class__}']
 PY_INT = ['+2', '1_0', ' 3 ', '-0', '007', '\t5']          # accepted by int(): not malformed
-BAD_MODE = ['X', 'Q', 'raw', 'x', '1', ' ', 'ZM', '%52']
+BAD_MODE = ['X', 'Q', 'raw', 'x', '1', ' ', 'ZM', '%52', '{', '}', '{0}', '{x}', '%s']
 OK_MODE = ['R', 'M', 'D', 'C', '#', '$', 'RAW', 'Mx', 'CD']  # first letter decides
-BAD_PLAT = ['X', 'a', 'AG', 'APPLE', ' ', '1', 'A ', '']
+BAD_PLAT = ['X', 'a', 'AG', 'APPLE', ' ', '1', 'A ', '', '{', '}', '{0}', '{x}', '%s']
 OK_PLAT = ['A', 'G', '#', '$']
 
 
